@@ -123,6 +123,13 @@ func init() {
 		runs := []RunSpec{
 			{Name: "bind-ops+slash", Sc: scBind(defaultParams(), bindOpsFull(), []Template{tSlash}, []string{"bad", "ok"}, d, b, m), Oracles: o},
 			{Name: "bind-ops+two-failures", Sc: scBind(paramSet("0.1", "0.001"), bindOpsSmall(), []Template{tSlash2}, []string{"bad", "ok"}, d+1, b+1, 2), Oracles: o},
+			{Name: "slash-zero+min-deposit-raised", Sc: func() *Scenario {
+				g := paramSet("0.1", "0.001")
+				g.MinDeposit, g.Name = 50, "gov-min-deposit-50"
+				sc := scBind(paramSet("0.1", "0.001"), bindOpsSmall(), []Template{tSlash2}, []string{"bad"}, d+1, b+1, 3)
+				sc.Alpha = lifeAlpha(AlphaOpts{RespKinds: []string{"bad"}, BindOps: bindOpsSmall(), ParamChanges: []ParamSet{g}})
+				return sc
+			}(), Oracles: o},
 			{Name: "price-zero-slash-half", Sc: scPrice(defaultParams(), "p1v", "p0", []Template{tOne, tRep2}, AlphaOpts{RespKinds: []string{"ok", "bad"}, CtxOps: []string{"pause", "kill"}}, d+1, b+1, 2), Oracles: o},
 			{Name: "life-super", Sc: scLife(defaultParams(), []Template{tOne, tSuper}, AlphaOpts{RespKinds: []string{"ok", "bad"}, CtxOps: []string{"kill"}}, d+1, b+1, 2), Oracles: o},
 			{Name: "slash-after-refund", Sc: scBind(defaultParams(), []Action{actBind("a", "P1", "O1", 10, "p1", 1), actDisable("a", "P1", "O1"), actRefund("a", "P1", "O1")}, []Template{tSlash3}, []string{"bad"}, d+1, b+1, 2), Oracles: o},
@@ -145,6 +152,7 @@ func init() {
 			{Name: "life-eligibility", Sc: scLife(defaultParams(), []Template{tOne, tRep2, tPoor}, eo, d, b, m), Oracles: o},
 			{Name: "life-eligibility-flipped-ids", Sc: flip(scLife(defaultParams(), []Template{tRep2, tLong}, eo, d, b, m)), Oracles: o},
 			{Name: "mod-thresholds", Sc: scMod(defaultParams(), []Template{tMod2, tModCap, tModPoor}, modO, d-1, b, m), Oracles: o},
+			{Name: "price-fraction-at-cap", Sc: scPrice(paramSet("0.1", "0.001"), "p3t", "p1", []Template{tCapLow, tOne}, AlphaOpts{RespKinds: []string{"ok"}}, d-1, b, m), Oracles: o},
 			{Name: "mod-thresholds-raise", Sc: scMod(paramSet("0.1", "0.001"), []Template{tMod1}, AlphaOpts{RespKinds: []string{"ok"}, ModUpdates: []CtxUpdate{{Name: "thr2", Threshold: 2}}, BindOps: []Action{actDisable("a", "P2", "O2"), actEnable("a", "P2", "O2", 0)}}, d, b, m), Oracles: o},
 		}
 		runs = append(runs, runsOf(lifeRuns(tier), o, MonFlags{})...)
@@ -158,6 +166,7 @@ func init() {
 			{Name: "price-volume", Sc: withFunds(scPrice(paramSet("0.1", "0.001"), "p2v", "p3vv", []Template{tRep2, tLong, tSuper}, po, d, b, m), 30, 5), Oracles: o, Mon: MonFlags{Vol: true}},
 			{Name: "price-time+subunit", Sc: withFunds(scPrice(paramSet("0.1", "0.001"), "p4t", "p1v", []Template{tRep2, tInf}, po, d, b, m), 30, 5), Oracles: o, Mon: MonFlags{Vol: true}},
 		}
+		runs = append(runs, RunSpec{Name: "two-services-one-provider", Sc: scTwoServices(paramSet("0.1", "0.001"), AlphaOpts{RespKinds: []string{"ok"}, BindOps: []Action{actUpdate("ab", "P1", "O1", 0, "p3vv", 0), actUpdate("a", "P1", "O1", 0, "p1t", 0)}}, d, b, m), Oracles: o, Mon: MonFlags{Vol: true}})
 		runs = append(runs, runsOf(lifeRuns(tier), o, MonFlags{Vol: true})...)
 		return runs
 	}, Pure: priceGrid})
@@ -176,7 +185,13 @@ func init() {
 		return runs
 	}})
 	register(&CheckSpec{Prop: "C09", Runs: func(tier string) []RunSpec {
-		return runsOf(lifeRuns(tier), []Oracle{oracleC09{}}, MonFlags{})
+		d, b, m := bump(tier, 8, 5, 2)
+		runs := runsOf(lifeRuns(tier), []Oracle{oracleC09{}}, MonFlags{})
+		// the owning module reacts inside its callbacks (kills the context it is told was paused; gives up on its other
+		// contexts when a batch fails): keeper calls made from within end-of-block and response processing
+		runs = append(runs, RunSpec{Name: "mod-reentrant", Sc: scModReentrant(defaultParams(), []Template{tMod1, tMod2, tModPoor},
+			AlphaOpts{RespKinds: []string{"ok", "bad"}, ModOps: []string{"mpause", "mstart"}}, d, b, m), Oracles: []Oracle{oracleC09{}}})
+		return runs
 	}})
 	register(&CheckSpec{Prop: "C10", Runs: func(tier string) []RunSpec {
 		d, b, m := bump(tier, 9, 7, 2)
